@@ -6,9 +6,13 @@ HOOKS = ['-DURCU_VERIF_RCU_QS_ACTIVE_ATTEMPTS=2', '-DURCU_VERIF_URCU_WAIT_ATTEMP
 
 
 def gp(name, flavor, threads, R, tso=0, nested=0, unreg=0, membarrier=1, faults=0, live=False, safe=True, desc='', wit=None, unwind=4,
-       live_R=None, timeout=3000, futex_enosys=0, handlers=None, dyn=0, reg_slots=None, tso_slots=None):
+       live_R=None, timeout=3000, futex_enosys=0, handlers=None, dyn=0, reg_slots=None, tso_slots=None, mem_gb=12):
     regs = [('reg', i + 1) for i, t in enumerate(threads) if t == 'reader' or (reg_slots and (i + 1) in reg_slots)]
-    extra = {'membarrier': membarrier, 'futex_enosys': futex_enosys, 'mem_gb': 12}
+    extra = {'membarrier': membarrier, 'futex_enosys': futex_enosys, 'mem_gb': mem_gb}
+    if flavor == 'bp':
+        # the registry arena is a byte-typed object (mmap model): pointers read back from it always carry CBMC's integer-address
+        # fallback next to their real targets; accesses that resolve to the fallback ALONE are still refused
+        extra['intaddr_ok'] = True
     if tso_slots:
         extra['tso_slots'] = tso_slots
     if handlers:
@@ -32,11 +36,11 @@ def obligations(tier):
               desc='mb: two concurrent synchronize_rcu callers (the second may be merged into the first one\'s grace period) and one reader: '
                    'each caller\'s return waits for the sections open at ITS call', wit=['second synchronize_rcu caller returned'])
     if not q:
-      obs += gp('memb_1r_tso1', 'memb', ['updater', 'reader'], 3, tso=1, tso_slots=[2],
+      obs += gp('memb_1r_tso1', 'memb', ['updater', 'reader'], 3, tso=1, tso_slots=[2], mem_gb=24, timeout=4500,
               desc='memb with sys_membarrier under x86-TSO (store buffer depth 1): the reader side has only compiler barriers, the updater\'s '
                    'membarrier must flush the reader\'s buffered ctr store before each scan (store buffering modelled for the reader thread; the updater is SC)', wit=W1)
     if not q:
-        obs += gp('bp_1r', 'bp', ['updater', 'reader'], 3,
+        obs += gp('bp_1r', 'bp', ['updater', 'reader'], 3, mem_gb=24,
                   desc='bp: updater vs one lazily registered reader (registration through the real arena allocator inside the first rcu_read_lock)', wit=W1)
     if not q:
         # further thorough obligations that were run to a verdict on this tree
